@@ -61,6 +61,27 @@ def erbCall [LtTest α] (st : Option ErbStrategy) (freq : α) (Hz : Option α) :
   | none => if LtTest.lt freq (ofInt 7) then .error () else .ok (f freq c1)
   | some hz => .ok (f freq hz)
 
+/-- `erb[...](freqs, Hz)` for an EAGER container of frequencies (list / tuple; `@elementwise("freq", 0)` builds
+    `type(freqs)(erb(x, Hz) for x in freqs)`): the items in order; the first refusal is the whole call's -/
+def erbCallList [LtTest α] (st : Option ErbStrategy) : List α → Option α → Except Unit (List α)
+  | [], _ => .ok []
+  | f :: fs, hz =>
+    match erbCall st f hz with
+    | .error e => .error e
+    | .ok v =>
+      match erbCallList st fs hz with
+      | .error e => .error e
+      | .ok vs => .ok (v :: vs)
+
+/-- the same for a LAZY container (Stream / generator): item `k` is computed when it is read; what a reader gets
+    item by item, up to and including the first refusal -/
+def erbCallLazy [LtTest α] (st : Option ErbStrategy) : List α → Option α → List (Except Unit α)
+  | [], _ => []
+  | f :: fs, hz =>
+    match erbCall st f hz with
+    | .error e => [.error e]
+    | .ok v => .ok v :: erbCallLazy st fs hz
+
 /-- `lowpass(cutoff)` / `lowpass[strategy](cutoff)` -/
 def lowpassCall (st : Option Strategy) (cutoff : α) : Coefs α := lowpass (st.getD .pole) cutoff
 
